@@ -10,6 +10,7 @@
     F-C50c U+0085 is altered by the final escaping)
 -/
 import MitmVerif.Model.C50
+import MitmVerif.Model.C50_Https
 import MitmVerif.Props.C49
 import Std.Data.String.ToNat
 namespace MitmVerif.Props.C50
@@ -345,5 +346,153 @@ example : hexFallback (.str (cpsOf "zz")) = none := by
 example : ∃ C : Codec, CodecLaws C ∧ Representable C ⟨[], 99, 1, 0, [1, 2]⟩ :=
   ⟨⟨fun _ _ => none, fun _ _ => none⟩, ⟨(by intro t b j h; cases h), (by intros; rfl)⟩,
     (by intro h; simp [isDecoded, decodedTypes] at h)⟩
+
+end MitmVerif.Props.C50
+
+/-! ### HTTPS / SVCB records: https_records.py transcribed (Model/C50_Https.lean) -/
+namespace MitmVerif.Props.C50
+open MitmVerif MitmVerif.C50.Https
+
+private theorem enc16_dec16 (a b : UInt8) : enc16 (dec16 a b) = [a, b] := by
+  have ha := UInt8.toNat_lt a
+  have hb := UInt8.toNat_lt b
+  have h1 : (a.toNat * 256 + b.toNat) / 256 = a.toNat := by omega
+  have h2 : (a.toNat * 256 + b.toNat) % 256 = b.toNat := by omega
+  simp [enc16, dec16, h1, h2]
+
+private theorem dec16_lt (a b : UInt8) : dec16 a b < 65536 := by
+  have ha := UInt8.toNat_lt a
+  have hb := UInt8.toNat_lt b
+  simp only [dec16]; omega
+
+/-- SvcPriority: '!h' unpack followed by '!h' pack gives the two original bytes, for all 65536 values
+    (the seeded one-sided '!H' change breaks exactly this lemma's Python counterpart for values ≥ 0x8000) -/
+theorem priority_roundtrip (a b : UInt8) : packSigned (toSigned (dec16 a b)) = some [a, b] := by
+  have hlt := dec16_lt a b
+  have henc := enc16_dec16 a b
+  unfold packSigned toSigned
+  by_cases h : dec16 a b < 32768
+  · simp only [h, if_true]
+    have h1 : (-32768 : Int) ≤ (dec16 a b : Int) ∧ (dec16 a b : Int) < 32768 := by omega
+    simp only [h1, and_self, if_true]
+    have h2 : ((dec16 a b : Int) % 65536).toNat = dec16 a b := by omega
+    rw [h2, henc]
+  · simp only [h, if_false]
+    have h1 : (-32768 : Int) ≤ (dec16 a b : Int) - 65536 ∧ (dec16 a b : Int) - 65536 < 32768 := by omega
+    simp only [h1, and_self, if_true]
+    have h2 : (((dec16 a b : Int) - 65536) % 65536).toNat = dec16 a b := by omega
+    rw [h2, henc]
+
+/-- SvcParams: whatever `_unpack_params` accepts, `_pack_params` writes back byte for byte (order and unknown keys kept) -/
+theorem params_roundtrip : ∀ (f : Nat) (l : Bytes) (ps : List (Nat × Bytes)),
+    parseParams f l = some ps → packParams ps = some l := by
+  intro f
+  induction f with
+  | zero =>
+    intro l ps h
+    cases l with
+    | nil => simp [parseParams] at h; subst h; rfl
+    | cons x xs => simp [parseParams] at h
+  | succ f ih =>
+    intro l ps h
+    match l, h with
+    | [], h => simp [parseParams] at h; subst h; rfl
+    | [_], h => simp [parseParams] at h
+    | [_, _], h => simp [parseParams] at h
+    | [_, _, _], h => simp [parseParams] at h
+    | a :: b :: c :: d :: rest, h =>
+      simp only [parseParams] at h
+      split at h
+      · rename_i hle
+        cases hp : parseParams f (rest.drop (dec16 c d)) with
+        | none => simp [hp] at h
+        | some ps' =>
+          simp only [hp, Option.map_some, Option.some.injEq] at h
+          subst h
+          have hrec := ih _ _ hp
+          have hk := dec16_lt a b
+          have hn := dec16_lt c d
+          have hlen : (rest.take (dec16 c d)).length = dec16 c d := by simp [List.length_take]; omega
+          simp only [packParams, hk, hlen, hn, and_self, if_true, hrec, Option.map_some, enc16_dec16]
+          simp [List.take_append_drop]
+      · cases h
+
+private theorem lookup_mem_svc (tab : List (Nat × String)) (k : Nat) (v : String)
+    (h : tab.lookup k = some v) : (k, v) ∈ tab := by
+  induction tab with
+  | nil => simp [List.lookup] at h
+  | cons x xs ih =>
+    obtain ⟨a, b⟩ := x
+    simp only [List.lookup] at h
+    split at h
+    · rename_i heq
+      have : k = a := by simpa using heq
+      subst this; cases h; simp
+    · exact List.mem_cons_of_mem _ (ih h)
+
+/-- JSON keys: name for the keys of SVCParamKeys, number otherwise; `SVCParamKeys[name.upper()]` inverts it -/
+theorem svc_key_roundtrip (k : Nat) : keyFromJson (keyToJson k) = some k := by
+  unfold keyToJson
+  split
+  · rename_i s hs
+    have hm := lookup_mem_svc _ _ _ hs
+    have hinj : ∀ e ∈ Gen.C50.svcKeyNames, nameToKey Gen.C50.svcKeyNames e.2 = some e.1 := by decide +kernel
+    simpa [keyFromJson] using hinj _ hm
+  · rfl
+
+/-- to_json / from_json of the parameters: values go through bytes_to_escaped_str / escaped_str_to_bytes (C51's theorem) -/
+theorem https_json_roundtrip (r : Rec) : fromJson (toJson r) = some r := by
+  have hp : ∀ ps : List (Nat × Bytes),
+      paramsFromJson (ps.map (fun kv => (keyToJson kv.1, C51.enc false false kv.2))) = some ps := by
+    intro ps
+    induction ps with
+    | nil => rfl
+    | cons kv rest ih =>
+      obtain ⟨k, v⟩ := kv
+      simp only [List.map_cons, paramsFromJson, svc_key_roundtrip, MitmVerif.Props.C51.roundtrip, ih]
+  simp [fromJson, toJson, hp]
+
+/-- the law of the domain-name codec: what `unpack_from` consumed is what `pack` writes for the name it returned -/
+structure NameLaw (N : NameCodec) : Prop where
+  unpack_pack : ∀ b s rest, N.unpackFrom b = some (s, rest) → ∃ w, b = w ++ rest ∧ N.pack s = some w
+
+/-- **C50 (HTTPS/SVCB rdata).** Every HTTPS rdata that `https_records.unpack` accepts is re-encoded byte for byte by
+    to_json → from_json → pack: all 65536 SvcPriority values, any TargetName the name codec accepts, SvcParams in any order,
+    unknown keys, empty values.  (Rdata it rejects — short data, bad name, truncated or repeated parameter — is covered by
+    `record_data_roundtrip_partial`: HTTPS is a strict type and takes the hex fallback.)  So for HTTPS records the guard
+    "the decoder accepts the data ⇒ the setter restores it" of `CodecLaws.dec_enc` is a theorem, with the name codec as the
+    only parameter. -/
+theorem https_reencode_exact (N : NameCodec) (L : NameLaw N) (data : Bytes) (r : Rec)
+    (h : unpack N data = some r) : reencode N data = some data := by
+  unfold reencode
+  rw [h]
+  simp only [https_json_roundtrip, Option.bind_some]
+  unfold unpack at h
+  match data, h with
+  | a :: b :: rest, h =>
+    simp only at h
+    cases hn : N.unpackFrom rest with
+    | none => simp [hn] at h
+    | some p =>
+      obtain ⟨nm, rest'⟩ := p
+      simp only [hn] at h
+      cases hp : parseParams rest'.length rest' with
+      | none => simp [hp] at h
+      | some ps =>
+        simp only [hp] at h
+        split at h
+        · cases h
+        · simp only [Option.some.injEq] at h
+          subst h
+          obtain ⟨w, hw, hpack⟩ := L.unpack_pack _ _ _ hn
+          have hps := params_roundtrip _ _ _ hp
+          simp only [pack, priority_roundtrip, hpack, hps]
+          simp [hw]
+
+/-- the decoder does reject something, and the model is not the identity on accepted data by accident: a repeated key -/
+example : unpack asciiCodec [0, 1, 0, 0, 3, 0, 2, 1, 0xbb, 0, 3, 0, 2, 0x20, 0xfb] = none := by decide +kernel
+example : reencode asciiCodec [0xff, 0xff, 1, 0x61, 0, 0, 3, 0, 2, 1, 0xbb, 0, 1, 0, 3, 2, 0x68, 0x32] =
+    some [0xff, 0xff, 1, 0x61, 0, 0, 3, 0, 2, 1, 0xbb, 0, 1, 0, 3, 2, 0x68, 0x32] := by decide +kernel
+example : (unpack asciiCodec [0x80, 0, 0]).map (·.pri) = some (-32768) := by decide +kernel
 
 end MitmVerif.Props.C50
